@@ -25,3 +25,41 @@ def frontier_knobs(mod_frontier):
     if os.environ.get("VERIF_ALL_FRONTIER"):
         return ALL_KNOBS
     return tuple(mod_frontier)
+
+
+# ----------------------------------------------------------------------------- single-kind round trip
+def roundtrip(case, kind, policy, nontrivial, extra=None, name_for_tags="kind"):
+    """emit -> text -> parse -> compare; `extra(cir, got, text, discs, per_by_name)` adds property-specific checks."""
+    from . import kinds
+    from .oracle import compare_ir
+    from .runner import CaseResult, raise_disc
+
+    cir, opts = case["ir"], case["opts"]
+    tags, per = domain.tags_of(cir)
+    tags |= {"kind=" + kind} | {"%s=%s" % (k, v) for k, v in opts.items()}
+    per_by_name = {p["name"]: t for p, t in zip(cir["params"], per)}
+    try:
+        text = kinds.emit_text(kind, domain.to_ir(cir), opts)
+    except Exception as e:
+        return CaseResult([raise_disc(e, "emit")], tags, nontrivial, "emit raised %s" % type(e).__name__)
+    try:
+        compile(text, "<emitted>", "exec") if kind in kinds.CODE_KINDS else None
+    except SyntaxError as e:
+        from .runner import Disc
+
+        return CaseResult([Disc("emit:syntax-error", "text", "%s in %r" % (e, text[:300]))], tags, nontrivial, "emitted text does not compile")
+    try:
+        got = kinds.parse_text(kind, text, opts)
+    except Exception as e:
+        return CaseResult([raise_disc(e, "parse")], tags, nontrivial, "parse raised %s" % type(e).__name__)
+    discs = compare_ir(cir, got, policy, per_by_name)
+    if extra is not None:
+        extra(cir, got, text, discs, per_by_name, opts)
+    return CaseResult(discs, tags, nontrivial, "round trip %s" % ("ok" if not discs else "; ".join(d.aspect for d in discs[:4])))
+
+
+def valid_rt_case(case, kind):
+    from . import kinds
+
+    return (isinstance(case, dict) and set(case) == {"ir", "opts"} and domain.valid_ir(case["ir"])
+            and kinds.valid_opts(kind, case["opts"]))
